@@ -36,6 +36,8 @@ def run(ck):
     exempt.assertion_divisor_rule(ck, prog)
     num_steps_rule(ck, prog)
     eval_rule(ck, prog)
+    overlap_rule(ck, prog)
+    kinds_rule(ck, prog)
 
 
 def num_steps_rule(ck, prog):
@@ -149,3 +151,92 @@ def eval_rule(ck, prog):
     cut = partial_iteration(names)
     ck.ob("EVAL", "evaluate_at:all-terms", not cut, "the loops over numerator terms and exemption points are not cut short", loc=f0.loc(),
           detail=None if not cut else {"adaptors": cut})
+
+
+def overlap_rule(ck, prog):
+    """OVERLAP: `prepare_assertions` compares every new assertion with EVERY assertion accepted so far. The accepted set is ordered by
+    (stride, first step, column) but filled in the caller's order, so a comparison restricted to a sub-range of the set (seed C16-O:
+    `result.range(..=&assertion)`, "overlaps_with is symmetric") never examines a pair whose later-sorting member was inserted first."""
+    ck.rule("OVERLAP", "every new assertion is compared by overlaps_with with the whole set of assertions accepted so far (no range / take / skip on the set)")
+    f0 = prog.fn_opt("winter_air::air::boundary::prepare_assertions")
+    if f0 is None:
+        ck.note("OVERLAP: prepare_assertions not found; not decided")
+        return
+    ck.saw(f0)
+    f = prog.inl(f0)
+    g = flow(f)
+    sites = [(b, t) for b, t in f.calls() if (callee_name(t) or "").endswith("Assertion::overlaps_with")]
+    fam = [f]
+    for b, t in f.calls():
+        for cid in f.closure_args(t):
+            if cid in prog.fns:
+                fam.append(prog.fns[cid])
+    if not sites:
+        for c in fam[1:]:
+            sites += [(b, t) for b, t in c.calls() if (callee_name(t) or "").endswith("Assertion::overlaps_with")]
+        if not sites:
+            ck.note("OVERLAP: no call of overlaps_with in prepare_assertions; not decided")
+            return
+    names = set()
+    for ff in fam:
+        names |= {callee_name(t) or "" for _, t in ff.calls()}
+    cut = sorted(n for n in names if n.endswith(("BTreeSet::range", "BTreeMap::range", "BTreeSet::split_off", "BTreeSet::first", "BTreeSet::last"))
+                 or (n.startswith("core::iter::") and n.split("::")[-1] in ("skip", "take", "step_by", "skip_while", "take_while", "nth")))
+    whole = any(n.endswith(("BTreeSet::iter", "BTreeSet::into_iter", "Vec::iter", "slice::iter")) or n.endswith("IntoIterator::into_iter") for n in names)
+    ck.ob("OVERLAP", "prepare_assertions:all-accepted-compared", whole and not cut,
+          "prepare_assertions iterates over the whole accepted set when it looks for an overlap", loc=f0.loc(),
+          detail=None if (whole and not cut) else {"restricting adaptors": [c.split('::')[-1] for c in cut]})
+
+
+def kinds_rule(ck, prog):
+    """KIND: a sequence assertion of exactly one value names one step; `Assertion::sequence` stores NO_STRIDE for it (so that it is a single
+    assertion: divisor x - g^a, one step) — decided on the constructor's paths: on the path where values.len() == 1 the stride stored is the
+    constant NO_STRIDE, on the other path it is the parameter."""
+    from ..symex import paths, norm, show, TooComplex
+    ck.rule("KIND", "Assertion::sequence with one value is stored as a single-step assertion (stride NO_STRIDE)")
+    f0 = prog.fn_opt("winter_air::air::assertions::Assertion::sequence")
+    if f0 is None:
+        ck.note("KIND: Assertion::sequence not found; not decided")
+        return
+    ck.saw(f0)
+    f = prog.inl(f0)
+    adt = "winter_air::air::assertions::Assertion"
+    aggs = [(b, i, st) for b, i, st in f.assigns() if st["rv"]["k"] == "agg" and st["rv"].get("adt") == adt and st["rv"].get("fields")]
+    if not aggs:
+        ck.note("KIND: Assertion::sequence does not build an Assertion literal; not decided")
+        return
+    from .exempt import expr_at, strip_conv
+    from ..cfg import single_def
+    decided = False
+    for b, i, st in aggs:
+        ops = dict(zip(st["rv"]["fields"], st["rv"]["ops"]))
+        if "stride" not in ops:
+            continue
+        sl = ops["stride"]
+        p = (sl.get("copy") or sl.get("move")) if isinstance(sl, dict) else None
+        if p is None:
+            # a constant operand: fine only if it is NO_STRIDE everywhere — cannot be (sequences of several values need the stride)
+            continue
+        defs = f.defs.get(p["l"], [])
+        consts = [d for d in defs if d[1] != "T" and d[2]["rv"]["k"] == "use" and (d[2]["rv"]["a"].get("const") is not None)]
+        params = [d for d in defs if d[1] != "T" and d[2]["rv"]["k"] == "use" and d[2]["rv"]["a"].get("const") is None]
+        decided = True
+        zero = any(str((d[2]["rv"]["a"]["const"] or {}).get("scalar")) in ("0", "0x0") or str((d[2]["rv"]["a"]["const"] or {}).get("def_name", "")).endswith("NO_STRIDE") for d in consts)
+        # the constant definition is taken on the values.len() == 1 side
+        g = flow(f)
+        cond_ok = False
+        for sb in range(len(f.blocks)):
+            t = f.term(sb)
+            if t["k"] != "switch":
+                continue
+            w = g.walk(ops=[t["d"]], at=(sb, T))
+            if any(n.endswith(("Vec::len", "slice::len")) for n in g.callee_names_in(w)) and any(k.startswith("lit:1:") for k in g.consts_in(w)):
+                cond_ok = True
+        ok = zero and bool(params) and cond_ok
+        ck.ob("KIND", "sequence:one-value-is-single", ok,
+              "Assertion::sequence stores NO_STRIDE when it is given exactly one value and the given stride otherwise", loc=f.loc(b, i),
+              detail=None if ok else "the stride of a one-value sequence is stored as given: the assertion is treated as periodic (n/stride steps) instead of one step")
+    if not decided:
+        ck.ob("KIND", "sequence:one-value-is-single", False,
+              "Assertion::sequence stores NO_STRIDE when it is given exactly one value and the given stride otherwise", loc=f0.loc(),
+              detail="the stride stored by Assertion::sequence does not depend on the number of values")
